@@ -195,6 +195,8 @@ type FuncVerifier struct {
 	globalWrites   []string
 	globalReads    map[string]bool
 	yieldVar       *types.Var
+	litElems       map[string][]Term // literal sequences introduced by namedSeqLit (packed variadic arguments): their elements
+	yieldAliases   map[*types.Var]bool // parameters of inlined helpers that were handed the yield function
 	nondet         []string // sources of nondeterminism met while executing (for `functional`)
 	panicStates    []panicExit // exceptional exits met while executing (see forkPanic)
 	inlineStack    []string    // keys of /repo functions currently being executed inline
@@ -865,7 +867,10 @@ func (fv *FuncVerifier) eval(st *State, env *Env, e ast.Expr) Term {
 			st.vars[o] = t
 			return t
 		case *types.Func:
-			return Term{w.UFun("fn_"+sanitize(ov.FullName()), nil, SRef, ""), SRef}
+			ft := Term{w.UFun("fn_"+sanitize(ov.FullName()), nil, SRef, ""), SRef}
+			// a declared function used as a value is never nil
+			st.Assume(Not(App(SBool, "=", ft, Null)))
+			return ft
 		case *types.Nil:
 			return Null
 		}
